@@ -56,6 +56,9 @@ pub fn adsr_time(fs: f32) -> BoxedStrategy<f32> {
         3 => (0.001f64..few).prop_map(|x| x as f32),
         // around one sample per phase
         2 => (0.3f64..2.5).prop_map(move |k| (k / fs as f64) as f32),
+        // exactly k samples per phase in f32 arithmetic (k = 1 makes the per-tick step exactly one full cycle)
+        2 => proptest::sample::select(vec![0.25f32, 0.5, 1.0, 2.0, 3.0, 4.0, 8.0, 16.0, 1024.0]).prop_map(move |k| k / fs),
+        1 => proptest::sample::select(vec![1.0f32, 2.0, 4.0]).prop_map(move |k| k * (1.0f32 / fs)),
         1 => prop_oneof![Just(0.001f32), Just(20.0f32)],
         1 => wild_finite(),
         1 => non_finite(),
